@@ -92,7 +92,9 @@ template<class C, class R> static void block_op_case(const Pattern &p, hx::Rng &
                 std::vector<scalar> v; for (int i=0;i<n;++i) v.push_back(var("v"+std::to_string(i),i==0?1.0:0.0));
                 auto mul=[&](const std::vector<std::vector<mpq_class>> &M, const std::vector<scalar> &x) { std::vector<scalar> y(n,scalar(0)); for (int i=0;i<n;++i) { scalar s=0; for (int j=0;j<n;++j) if (M[i][j]!=0) s+=scalar::q(M[i][j])*x[j]; y[i]=s; } return y; };
                 std::vector<scalar> Bv=mul(B,v); scalar vBv=0; for (int i=0;i<n;++i) vBv+=v[i]*Bv[i]; std::vector<hx::F> nz; for (int i=0;i<n;++i) nz.push_back(hx::ne(v[i],scalar(0)));
-                hx::prove("block values: B is positive definite: v != 0 => v'Bv > 0", hx::implies(hx::any_of(nz), hx::lt(scalar(0),vBv))); } }
+                hx::prove("block values: B is positive definite: v != 0 => v'Bv > 0", hx::implies(hx::any_of(nz), hx::lt(scalar(0),vBv)));
+                std::vector<scalar> ABv=hx::dense_mv(A,Bv), BABv=mul(B,ABv); scalar q2=0; for (int i=0;i<n;++i) q2+=v[i]*(2*Bv[i]-BABv[i]);
+                hx::prove("block values: contraction: v != 0 => v'(2B - BAB)v > 0  (spectral radius of I - BA below one)", hx::implies(hx::any_of(nz), hx::lt(scalar(0),q2))); } }
 #endif
         if (hx::concrete() && symmetric_smoother) { std::vector<std::vector<scalar>> Bc(n,std::vector<scalar>(n)); for (int j=0;j<n;++j) { std::vector<scalar> e(n,scalar(0)); e[j]=scalar(1); std::vector<scalar> col=app(amg,e); for (int i=0;i<n;++i) Bc[i][j]=col[i]; }
             std::vector<hx::F> symm; for (int i=0;i<n;++i) for (int j=i+1;j<n;++j) symm.push_back(hx::eq(Bc[i][j],Bc[j][i])); hx::prove_all("block values: B is symmetric", symm); }
@@ -110,6 +112,6 @@ int main(int argc, char **argv) {
         op_case<SA,SP>(p,rng,c,symcyc,small); op_case<AG,DJ>(p,rng,c,symcyc,small); op_case<SA,GS>(p,rng,c,symcyc,small);
         if (ci<2 || T) { op_case<RS,SP>(p,rng,c,symcyc,small); op_case<EM,DJ>(p,rng,c,false,false); op_case<SA,I0>(p,rng,c,symcyc,small); op_case<AG,IK>(p,rng,c,symcyc,small); op_case<SA,IP>(p,rng,c,symcyc,small); op_case<SA,CH>(p,rng,c,symcyc,small && p.n<=6); op_case<SA,IT>(p,rng,c,false,false); } }
     { std::vector<Pattern> bp{hx::grid_pattern(3,2),hx::band_pattern(8,1)}; if (T) { bp.push_back(hx::grid_pattern(4,3)); bp.push_back(hx::grid_pattern(4,2)); }
-      for (auto &p : bp) for (size_t ci=0; ci<(T?cycs.size():2); ++ci) { const Cyc &c=cycs[ci]; bool symcyc=c.npre==c.npost; block_op_case<SA,SP>(p,rng,c,symcyc); block_op_case<AG,DJ>(p,rng,c,symcyc); if (T || ci==0) block_op_case<SA,I0>(p,rng,c,symcyc); } }
+      for (auto &p : bp) for (size_t ci=0; ci<(T?cycs.size():2); ++ci) { const Cyc &c=cycs[ci]; bool symcyc=c.npre==c.npost; block_op_case<SA,SP>(p,rng,c,symcyc); block_op_case<AG,DJ>(p,rng,c,symcyc); block_op_case<AG,GS>(p,rng,c,symcyc); if (T || ci==0) block_op_case<SA,I0>(p,rng,c,symcyc); } }
     return hx::finish();
 }
